@@ -178,6 +178,14 @@ func (ex *Exec) callModular(callee *ssa.Function, cfc *FuncContract, args []Valu
 		if mentionsAllocs && st.allocs == nil {
 			continue
 		}
+		if ex.vc.ModularPosts == nil {
+			ex.vc.ModularPosts = map[string]map[string]bool{}
+		}
+		ck := pkgKeyOf(callee) + "." + FuncKey(callee)
+		if ex.vc.ModularPosts[ck] == nil {
+			ex.vc.ModularPosts[ck] = map[string]bool{}
+		}
+		ex.vc.ModularPosts[ck][d.Label] = true
 		ex.vc.Assume(Implies(pc, post.evalBool(d.Text)))
 	}
 	return res
@@ -455,6 +463,11 @@ func (ex *Exec) callExtern(instr ssa.Instruction, full string, cc *ssa.CallCommo
 		if ok {
 			if sl, ok := iv.V.(*SliceV); ok {
 				ex.vc.Oblige(ex.obName("pool", "put_item_is_14_slot_slice"), "frame", Implies(pc, And(Eq(sl.Len, IntLit(14)), BoolLit(sl.Base == ex.top.poolItem))))
+				// an item is put back exactly once: a second Put would make the pool hand the same
+				// slice to two callers
+				if st.owned != nil {
+					ex.vc.Oblige(ex.obName("pool", "item_put_only_while_owned"), "frame", Implies(pc, st.owned))
+				}
 				st.owned = Ite(pc, False, st.owned)
 				return &TupleV{}
 			}
